@@ -3,9 +3,45 @@ Part 1: shared run-family correspondence + oracle_c05 (harness/runfam.py).
 Part 2: the real Dependency on every backend: a task that succeeded before and then fails in any way
 (return False, exception, TaskFailed/TaskError object, a command action that exits with a non-zero status,
 with a status above 125, or is killed by a signal -- the command itself or the shell that runs it --,
-file_dep vanishing during execution, file_dep missing before execution) must be reported as failed and execute again on the next run, with and without reopening the DB."""
+file_dep vanishing during execution, file_dep missing before execution) must be reported as failed and execute again on the next run, with and without reopening the DB.
+Part 3 (part_failed_rerun_shapes): "executes again whatever the state of its inputs" over the ways of declaring dependencies.
+Part 4 (harness/c05_history.py): the HISTORY before the failing run -- which members of a dependency chain are up-to-date by
+their own inputs when the failure happens -- on the real command line, three backends, serial / thread / process runners.
+The oracle of part 1 is runfam.oracle_c05 + oracle_c05_chain below (containment through a CHAIN of tasks, whatever the
+status of the tasks in between; no up-to-date report for a task one of whose dependencies failed)."""
 import os, sys
 import runfam
+import c05_history
+
+
+def oracle_c05_chain(v):
+    """containment over the transitive dependency relation, judged on the observed event list: after a failure report of
+    f no task that reaches f through declared/effective edges (task_dep, file-on-target, calc_dep incl. returned ones;
+    setup edges of a task whose status check said `run`) starts, WHATEVER was reported for the tasks in between (an
+    up-to-date intermediate task does not shield its dependents); and such a task is never reported up-to-date."""
+    bad = []
+    edges = v.eff_edges()
+    failed = sorted(set(e[1] for e in v.ev if e[0] == 4))
+    for f in failed:
+        pf = v.first(4, f)
+        cone, grew = {f}, True
+        while grew:
+            grew = False
+            for u in range(v.n):
+                if u not in cone and any(d in cone for d in edges.get(u, ())):
+                    cone.add(u); grew = True
+        for y in sorted(cone - {f}):
+            ps = v.first(v.start_code, y)
+            if ps is not None and ps > pf:
+                bad.append(('dependent-of-failed-executed-through-chain', 'task %d started after task %d had failed, although it depends on it through a chain of tasks' % (y, f)))
+            pu = v.first(3, y)
+            if pu is not None and pu > pf:
+                bad.append(('dependent-of-failed-reported-up-to-date', 'task %d was reported up-to-date after task %d, on which it depends (directly or through a chain), had failed in this run' % (y, f)))
+    return bad
+
+
+def oracle_c05_full(v):
+    return runfam.oracle_c05(v) + oracle_c05_chain(v)
 
 
 def part_real_db(ctx, out):
@@ -167,12 +203,21 @@ def part_failed_rerun_shapes(ctx, out):
 
 
 def run(ctx):
-    out = runfam.run_property(ctx, 'C05')
+    saved = runfam.ORACLES['C05']
+    runfam.ORACLES['C05'] = oracle_c05_full
+    try:
+        out = runfam.run_property(ctx, 'C05')
+    finally:
+        runfam.ORACLES['C05'] = saved
     part_real_db(ctx, out)
     part_failed_rerun_shapes(ctx, out)
+    c05_history.part_history(ctx, out)
     return out
 
 
 def replay(ctx, payload):
+    case = payload.get('case') if isinstance(payload, dict) else None
+    if isinstance(case, dict) and case.get('part') == 'history':
+        return c05_history.replay_history(ctx, case)
     print(payload)
     return 0
